@@ -366,8 +366,12 @@ def body(ctx):
         # one rep class per near-miss pair in the quick tier (rotating), all of them in the thorough tier
         for rk in (repsel if ctx.thorough else [repsel[k % len(repsel)]]):
             work.append((rk, ea, da, eb, db))
+    seen_work = set()
     if True:
         for (rk, ea, da, eb, db) in work:
+            if (rk, ea, eb) in seen_work:
+                continue
+            seen_work.add((rk, ea, eb))
             ra, rb = REPS[rk]
             head = "using RA = %s; using RB = %s;\nstruct A : decltype(%s) {};\n" % (ra, rb, ea)
             bad_b = "struct B : decltype(%s) {};\n" % eb
